@@ -568,7 +568,8 @@ static int patched_proc_file(const char *path) {
     if (fake_rss_kib <= 0) return -1;
     int is_status = !strcmp(path, "/proc/self/status");
     int is_statm = !strcmp(path, "/proc/self/statm");
-    if (!is_status && !is_statm) return -1;
+    int is_stat = !strcmp(path, "/proc/self/stat");
+    if (!is_status && !is_statm && !is_stat) return -1;
     int real = (int)syscall(SYS_openat, AT_FDCWD, path, O_RDONLY | O_CLOEXEC, 0);
     if (real < 0) return -1;
     static char in[16384], out[20000];
@@ -577,7 +578,25 @@ static int patched_proc_file(const char *path) {
     if (n <= 0) return -1;
     in[n] = 0;
     size_t o = 0;
-    if (is_statm) {
+    if (is_stat) {
+        /* pid (comm) state ppid ... utime stime ...: the process's identity and the CPU time the
+           kernel has accounted to it are the machine's; they follow the plan (CPU time in ticks =
+           the clock plan's step in milliseconds) */
+        char *close_paren = strrchr(in, ')');
+        if (!close_paren) return -1;
+        o = (size_t)snprintf(out, sizeof out, "%ld (gram)", fake_pid ? fake_pid : 4242L);
+        char *tok = strtok(close_paren + 1, " \n");
+        int field = 3;
+        unsigned long long ticks = clock_owned ? clock_step / 1000000ULL : 1ULL;
+        while (tok && o + 64 < sizeof out) {
+            if (field == 4) o += (size_t)snprintf(out + o, sizeof out - o, " %ld", (fake_pid ? fake_pid : 4242L) - 1);
+            else if (field == 14 || field == 15) o += (size_t)snprintf(out + o, sizeof out - o, " %llu", ticks);
+            else o += (size_t)snprintf(out + o, sizeof out - o, " %s", tok);
+            tok = strtok(NULL, " \n");
+            field++;
+        }
+        out[o++] = '\n';
+    } else if (is_statm) {
         /* size resident shared text lib data dt (pages) */
         unsigned long f[7] = {0};
         sscanf(in, "%lu %lu %lu %lu %lu %lu %lu", &f[0], &f[1], &f[2], &f[3], &f[4], &f[5], &f[6]);
